@@ -6,7 +6,8 @@ import DL.Lemmas.CFUr2
 
 Fragment `inF` (`DL.Lemmas.CFPos`): expression/declaration statements, blocks, `if`/`else`, `while`, `do-while`, `for`,
 `for-in/of`, `switch`, `try`/`catch`/`finally`, labelled statements, `break`/`continue` (with or without label), `return`, `throw`; expressions may contain
-function scopes (parameters, then a body block of the fragment), to any depth.  
+function scopes (parameters, then a body block of the fragment) and statements nested directly in them (`with` bodies,
+class static blocks), to any depth; where nested statements may sit is restricted as described in `DL.Lemmas.CFPos`.
 
 For a statement visited with the analyzer state `a` at a program point that is reachable iff `live`:
 
@@ -164,45 +165,55 @@ theorem PreK.flag {ps : List Nat} {a : A} (h : PreK ps a) (p : Nat) (t : Tag) : 
   ⟨fun q hq => by rw [flagA_endAt]; exact h.fresh q hq, h.nodup⟩
 
 /-! ### leaf statements -/
-theorem simple_ok (live : Bool) (ls : List Id) (p : Nat) (t : Tag) (kids : Kids) (a : A) (hk : kids.okF = true)
+/-- what visiting the kids of a statement guarantees: they are evaluated in order in the enclosing flow, and the
+statements nested directly in them (`with` bodies, class static blocks) behave like statements of that flow -/
+abbrev KidsL (live : Bool) (ks : Kids) (a a' : A) : Prop :=
+  PostL live ks.upos ks.positions ks.compl ks.flowReach ks.inner a a'
+
+theorem Pre.of_sub_flag {live : Bool} {ps qs : List Nat} {a : A} (h : Pre live ps a) (p : Nat) (t : Tag)
+    (hsub : ∀ q ∈ qs, q ∈ ps) (hn : qs.Nodup) : Pre live qs (flagA a p t) := h.flag p t hsub hn
+
+theorem simple_ok (live : Bool) (ls : List Id) (p : Nat) (t : Tag) (kids : Kids) (a : A)
     (h : Pre live (Stmt.simple p t kids).positions a)
-    (ihk : ∀ x, PreK kids.positions x → PostK kids.upos kids.positions kids.inner kids.mayThrow x (visitKids kids x)) :
+    (ihk : ∀ x, Pre live kids.positions x → KidsL live kids x (visitKids kids x)) :
     PostS live ls (.simple p t kids) a (visitStmt (.simple p t kids) a) := by
   have hv : visitStmt (.simple p t kids) a = visitKids kids (flagA a p t) := by simp [visitStmt, flagA]
   have hsep := Stmt.simple_own_sep p t kids h.nodup
   have hur : (visitKids kids (flagA a p t)).info.ur p = (flagA a p t).info.ur p := Kids.ur_frame kids _ p hsep.1
-  have hprek : PreK kids.positions (flagA a p t) :=
-    (PreK.of_pre h (fun q hq => (Stmt.mem_positions_simple p t kids q).mpr (Or.inr hq)) (Stmt.nodup_simple p t kids h.nodup)).flag p t
+  have hprek : Pre live kids.positions (flagA a p t) :=
+    h.flag p t (fun q hq => (Stmt.mem_positions_simple p t kids q).mpr (Or.inr hq)) (Stmt.nodup_simple p t kids h.nodup)
   have hs := ihk _ hprek
   rw [hv]
   generalize visitKids kids (flagA a p t) = a1 at hs hur
+  have hc : Stmt.compl ls (.simple p t kids) = kids.compl := by simp [Stmt.compl]
+  rw [show PostS live ls (.simple p t kids) a a1 = PostS live ls (.simple p t kids) a a1 from rfl]
   refine ⟨⟨?_, ?_, ?_, ?_, ?_, ?_, ?_, ?_, ?_, ?_, ?_⟩, ?_⟩
-  · intro hst; rw [hs.end_] at hst; simp [h.hs hst]
-  · simp [Stmt.compl]
-  · simp [Stmt.compl]
-  · intro hb; rw [hs.fb]; exact hb
-  · exact hs.fc
-  · simp [Stmt.compl]
+  · rw [hc]; exact hs.p1
+  · rw [hc]; exact hs.p2
+  · rw [hc]; exact hs.p2c
+  · exact hs.monoB
+  · exact hs.monoC
+  · rw [hc]; exact hs.p2l
   · intro q hq hu
     simp only [Stmt.upos, List.mem_cons] at hq
     rcases hq with rfl | hq
     · have := own_pos_dead h q t _ hur hu
       simp [this]
     · have hne : q ≠ p := fun e => hsep.1 (e ▸ hq)
-      simp [Stmt.reach, hne, Kids.flowReach_okF kids q hk]
+      have := hs.p3 q hq hu
+      simp only [Stmt.reach]
+      revert this; cases live <;> simp [hne]
   · intro q hq hu
     simp only [Stmt.upos, List.mem_cons] at hq
     simp only [Stmt.inner]
     rcases hq with rfl | hq
     · exact hsep.2
-    · exact hs.p3 q hq hu
+    · exact hs.p3i q hq hu
   · intro q hq
     rw [Stmt.mem_positions_simple, not_or] at hq
     rw [hs.frame q hq.2]; exact flagA_other a p t q hq.1
-  · exact hs.mt
-  · intro hh
-    simp only [Stmt.compl, evalCompl_t, Bool.and_eq_true] at hh
-    exact hs.pT (h.notStopped hh.1) hh.2
+  · exact hs.monoT
+  · rw [hc]; exact hs.pT
   · intro hde hst
     rw [Stmt.isDeclOrExpr_simple] at hde
     have hpos := Stmt.positions_simple_nde p t kids hde
@@ -265,8 +276,9 @@ theorem cont_ok (live : Bool) (ls : List Id) (l : Option Id) (p : Nat) (a : A) (
 theorem forcedLeaf_ok (live : Bool) (ls : List Id) (s : Stmt) (p : Nat) (arg : Kids) (a a1 a2 : A) (e : End)
     (hpos : s.positions = p :: arg.positions) (hup : s.upos = p :: arg.upos) (hp : s.pos = p)
     (hn : (s.compl ls).n = false) (hb : (s.compl ls).b = false)
-    (hc : (s.compl ls).c = false) (hl : (s.compl ls).hasCl = false) (hr : ∀ q, s.reach q = (q == p)) (hin : ∀ q, s.inner q = arg.inner q)
-    (hk : PostK arg.upos arg.positions arg.inner arg.mayThrow (flagA a p .other) a1)
+    (hc : (s.compl ls).c = false) (hl : (s.compl ls).hasCl = false)
+    (hr : ∀ q, s.reach q = (q == p || arg.flowReach q)) (hin : ∀ q, s.inner q = arg.inner q)
+    (hk : KidsL live arg (flagA a p .other) a1)
     (hs : SameCtl a1 a2) (hmt : a1.sc.mayThrow = true → a2.sc.mayThrow = true)
     (hpt : (live && (s.compl ls).t) = true → a2.sc.mayThrow = true) (h : Pre live (p :: arg.positions) a) :
     PostS live ls s a (markAsEnd p e a2) := by
@@ -275,8 +287,8 @@ theorem forcedLeaf_ok (live : Bool) (ls : List Id) (s : Stmt) (p : Nat) (arg : K
   · intro _; simp [hn]
   · simp [hb]
   · simp [hc]
-  · intro h'; rw [markAsEnd_foundBreak, hs.fb, hk.fb]; exact h'
-  · intro h'; rw [markAsEnd_foundContinue, hs.fc]; exact hk.fc h'
+  · intro h'; rw [markAsEnd_foundBreak, hs.fb]; exact hk.monoB h'
+  · intro h'; rw [markAsEnd_foundContinue, hs.fc]; exact hk.monoC h'
   · simp [hl]
   · intro q hq hu
     rw [hup] at hq
@@ -286,35 +298,38 @@ theorem forcedLeaf_ok (live : Bool) (ls : List Id) (s : Stmt) (p : Nat) (arg : K
       have := own_pos_dead h q .other _ rfl hu
       simp [this]
     · have hne : q ≠ p := fun e => hnd.1 (e ▸ Kids.upos_sub arg q hq)
-      simp [hr, hne]
+      have := hk.p3 q hq hu
+      rw [hr]
+      revert this; cases live <;> simp [hne]
   · intro q hq hu
     rw [hup] at hq
     rw [markAsEnd_ur, hs.info] at hu
     rw [hin]
     rcases List.mem_cons.mp hq with rfl | hq
     · exact Kids.inner_false arg q hnd.1
-    · exact hk.p3 q hq hu
+    · exact hk.p3i q hq hu
   · intro q hq
     rw [hpos] at hq; simp only [List.mem_cons, not_or] at hq
     rw [markAsEnd_info_other _ _ _ _ hq.1, hs.info, hk.frame q hq.2]; exact flagA_other a p .other q hq.1
-  · intro hh; rw [markAsEnd_mayThrow]; exact hmt (hk.mt hh)
+  · intro hh; rw [markAsEnd_mayThrow]; exact hmt (hk.monoT hh)
   · intro hh; rw [markAsEnd_mayThrow]; exact hpt hh
   · intro _ _; simp [hn]
 
-theorem ret_ok (live : Bool) (ls : List Id) (p : Nat) (arg : Kids) (a : A) (h : Pre live (p :: arg.positions) a)
-    (ihk : ∀ x, PreK arg.positions x → PostK arg.upos arg.positions arg.inner arg.mayThrow x (visitKids arg x)) :
+theorem ret_ok (live : Bool) (ls : List Id) (p : Nat) (arg : Kids) (a : A) (hpl : arg.compl.plain = true)
+    (h : Pre live (p :: arg.positions) a)
+    (ihk : ∀ x, Pre live arg.positions x → KidsL live arg x (visitKids arg x)) :
     PostS live ls (.ret p arg) a (visitStmt (.ret p arg) a) := by
   have hv : visitStmt (.ret p arg) a = markAsEnd p forcedRet (visitKids arg (flagA a p .other)) := by
     simp [visitStmt, flagA]
   rw [hv]
   have hnd := List.nodup_cons.mp h.nodup
-  have hk := ihk _ ((PreK.of_pre h (fun q hq => List.mem_cons_of_mem _ hq) hnd.2).flag p .other)
-  refine forcedLeaf_ok live ls _ p arg a _ _ _ rfl rfl rfl (by simp [Stmt.compl]) (by simp [Stmt.compl]) (by simp [Stmt.compl])
-    (by simp only [Stmt.compl, seq_hasCl, evalCompl_hasCl]; rfl)
+  have hk := ihk _ (h.flag p .other (fun q hq => List.mem_cons_of_mem _ hq) hnd.2)
+  refine forcedLeaf_ok live ls _ p arg a _ _ _ rfl rfl rfl (by simp [Stmt.compl]) (by simp [Stmt.compl, Compl.plain_b hpl])
+    (by simp [Stmt.compl, Compl.plain_c hpl]) (by simp only [Stmt.compl, seq_hasCl, evalCompl_eq, Compl.plain_hasCl hpl]; simp [Compl.hasCl])
     (fun q => rfl) (fun q => rfl) hk (SameCtl.refl _) id ?_ h
   intro hh
-  simp only [Stmt.compl, seq_t, evalCompl_t, evalCompl_n, Bool.true_and, Bool.or_false, Bool.and_eq_true] at hh
-  exact hk.pT (h.notStopped hh.1) hh.2
+  apply hk.pT
+  simpa [Stmt.compl] using hh
 
 theorem throwEffect_same (a : A) : SameCtl a (throwEffect a) := by
   unfold throwEffect
@@ -326,20 +341,28 @@ theorem throwEffect_mt (a : A) : (a.sc.mayThrow = true → (throwEffect a).sc.ma
   unfold throwEffect
   rcases h : a.sc.end_ with _ | ⟨r, t, i⟩ | _ | _ <;> simp [h]
 
-theorem throw_ok (live : Bool) (ls : List Id) (p : Nat) (arg : Kids) (a : A) (h : Pre live (p :: arg.positions) a)
-    (ihk : ∀ x, PreK arg.positions x → PostK arg.upos arg.positions arg.inner arg.mayThrow x (visitKids arg x)) :
+theorem throw_ok (live : Bool) (ls : List Id) (p : Nat) (arg : Kids) (a : A) (hpl : arg.compl.plain = true)
+    (h : Pre live (p :: arg.positions) a)
+    (ihk : ∀ x, Pre live arg.positions x → KidsL live arg x (visitKids arg x)) :
     PostS live ls (.throw p arg) a (visitStmt (.throw p arg) a) := by
   have hv : visitStmt (.throw p arg) a = markAsEnd p forcedThrow (throwEffect (visitKids arg (flagA a p .other))) := by
     simp [visitStmt, flagA]
   rw [hv]
   have hnd := List.nodup_cons.mp h.nodup
-  have hk := ihk _ ((PreK.of_pre h (fun q hq => List.mem_cons_of_mem _ hq) hnd.2).flag p .other)
-  refine forcedLeaf_ok live ls _ p arg a _ _ _ rfl rfl rfl (by simp [Stmt.compl]) (by simp [Stmt.compl]) (by simp [Stmt.compl])
-    (by simp only [Stmt.compl, seq_hasCl, evalCompl_hasCl]; rfl)
+  have hk := ihk _ (h.flag p .other (fun q hq => List.mem_cons_of_mem _ hq) hnd.2)
+  refine forcedLeaf_ok live ls _ p arg a _ _ _ rfl rfl rfl (by simp [Stmt.compl]) (by simp [Stmt.compl, Compl.plain_b hpl])
+    (by simp [Stmt.compl, Compl.plain_c hpl]) (by simp only [Stmt.compl, seq_hasCl, evalCompl_eq, Compl.plain_hasCl hpl]; simp [Compl.hasCl])
     (fun q => rfl) (fun q => rfl) hk (throwEffect_same _) (throwEffect_mt _).1 ?_ h
   intro hh
-  simp only [Bool.and_eq_true] at hh
-  apply (throwEffect_mt _).2
-  rw [hk.end_]; exact h.notStopped hh.1
+  simp only [Stmt.compl, seq_t, evalCompl_eq, Bool.and_true] at hh
+  cases h1 : (live && arg.compl.t) with
+  | true => exact (throwEffect_mt _).1 (hk.pT h1)
+  | false =>
+    apply (throwEffect_mt _).2
+    have hn : (live && arg.compl.n) = true := by
+      revert hh h1; cases live <;> cases arg.compl.t <;> cases arg.compl.n <;> simp
+    cases hst : stopsEnd (visitKids arg (flagA a p .other)).sc.end_ with
+    | false => rfl
+    | true => rw [hk.p1 hst] at hn; cases hn
 
 end DL.CF
